@@ -788,7 +788,16 @@ class GraphBuilder(BuilderBase):
 
         count = self.graph.num_nodes()
         node_name_prefix = self._qualify_node_name(f"{function.name}_node_{count}/")
-        nodes, outputs = _inliner.instantiate(graph, args, kwargs, prefix=node_name_prefix)
+        # Attribute arguments are given as python values, as for `call`
+        attributes = {
+            name: value
+            if isinstance(value, ir.Attr)
+            else ir.convenience.convert_attribute(name, value)
+            for name, value in kwargs.items()
+        }
+        nodes, outputs = _inliner.instantiate(
+            graph, args, attributes, prefix=node_name_prefix
+        )
 
         # Track final output values so we can rename them separately.
         # The inliner prefixes all names, which would prevent name-based lookup
